@@ -104,6 +104,8 @@ type World struct {
 	Runtime  *registry.Runtime // optional compute runtime
 	// RtThresholdsChanged: a generated runtime update changed the runtime's per-node stake thresholds and succeeded.
 	RtThresholdsChanged bool
+	// RtThresholdsSeq counts those updates.
+	RtThresholdsSeq int
 }
 
 // Spec holds the drawn genesis parameters (plain data so that it can be logged).
